@@ -71,6 +71,10 @@ type SMState struct {
 	// IP affinity
 	preferredReconAddr string
 
+	// JID the stream-managed session was bound to: the identity a resumption goes back to, whatever
+	// was bound meanwhile (a session on a server that did not offer stream management)
+	bindJid string
+
 	// Error
 	StreamErrorGroup stanza.StanzaErrorGroup
 
